@@ -1410,7 +1410,11 @@ class C05Property:
                       + pick_rng.sample([n for n in high if cost(n) <= 60], 1)
                       + pick_rng.sample([n for n in boundary if cost(n) <= 60], 1))
         chosen = list(dict.fromkeys(chosen))
-        chosen += [n for n in sorted(forced) if n in syn_reactions and n not in chosen][:4]
+        # forced cases: prefer those where a disagreement cannot be mistaken for a known finding, cheapest first
+        forced_syn = sorted((n for n in forced if n in syn_reactions and n not in chosen),
+                            key=lambda n: (syn_reactions[n][1]["massless_boson_final"], syn_reactions[n][1]["massless_deep_final"],
+                                           not syn_reactions[n][1]["complete_helicity_sets"], cost(n), n))
+        chosen += forced_syn[:3]
         # non-default public options (HARDENING rule 5): masses from the four-momenta, helicity couplings
         by_name = {c["name"]: (c, r, k) for c, r, k in cases}
         for n in (["lc_pKpi_Kstar", "psi2S_jpsipipi_f0", "lc_pKpi_L1520"] if thorough else ["lc_pKpi_Kstar"]):
